@@ -787,3 +787,329 @@ Section WholeWritten.
     rewrite Forall_forall in *. intros d Hd. now apply written_da_ok, F.
   Qed.
 End WholeWritten.
+
+(* ------------------------------------------------------------ ASCII integers: '%d' and int() *)
+Definition isdigit (c : Z) : Prop := 48 <= c <= 57.
+Definition dval (a : Z) (l : str) : Z := fold_left (fun a c => 10 * a + (c - 48)) l a.
+
+Lemma parse_nat_digits l : forall a, Forall isdigit l -> parse_nat l a = Some (dval a l).
+Proof.
+  induction l as [|c r IH]; intros a F; [reflexivity|]. inversion F as [|? ? Hc Fr]; subst. unfold isdigit in Hc.
+  cbn [parse_nat dval fold_left]. destruct (Z.leb_spec 48 c), (Z.leb_spec c 57); try lia. cbn [andb]. now apply IH.
+Qed.
+
+Lemma digits_aux_S f n acc :
+  digits_aux (S f) n acc = if n / 10 =? 0 then (48 + n mod 10) :: acc else digits_aux f (n / 10) ((48 + n mod 10) :: acc).
+Proof. reflexivity. Qed.
+
+Lemma digits_aux_spec : forall f n acc, 0 <= n < 2 ^ Z.of_nat (S f) ->
+  exists ds, digits_aux (S f) n acc = ds ++ acc /\ Forall isdigit ds /\ ds <> [] /\ dval 0 ds = n.
+Proof.
+  induction f as [|f IH]; intros n acc Hn.
+  - (* n < 2 *) assert (n = 0 \/ n = 1) by (change (2 ^ Z.of_nat 1) with 2 in Hn; lia).
+    exists [48 + n mod 10]. cbn [digits_aux].
+    destruct H as [-> | ->]; (split; [reflexivity|]; split; [constructor; [unfold isdigit; cbn; lia|constructor]|];
+                              split; [discriminate|reflexivity]).
+  - rewrite (digits_aux_S (S f)).
+    assert (Hd : 0 <= n mod 10 < 10) by (apply Z.mod_pos_bound; lia).
+    destruct (Z.eqb_spec (n / 10) 0) as [E|E].
+    + exists [48 + n mod 10]. split; [reflexivity|]. split; [|split; [discriminate|]].
+      * constructor; [unfold isdigit; lia|constructor].
+      * unfold dval. cbn [fold_left]. pose proof (Z.div_mod n 10 ltac:(lia)). lia.
+    + assert (Hq : 0 <= n / 10 < 2 ^ Z.of_nat (S f)).
+      { split; [apply Z.div_pos; lia|]. rewrite (Nat2Z.inj_succ (S f)), Z.pow_succ_r in Hn by lia.
+        apply Z.div_lt_upper_bound; lia. }
+      destruct (IH (n / 10) ((48 + n mod 10) :: acc) Hq) as [ds [E1 [F1 [N1 V1]]]].
+      exists (ds ++ [48 + n mod 10]). rewrite E1, <- app_assoc. split; [reflexivity|]. split; [|split].
+      * apply Forall_app. split; [assumption|]. constructor; [unfold isdigit; lia|constructor].
+      * destruct ds; discriminate.
+      * unfold dval in *. rewrite fold_left_app, V1. cbn [fold_left]. pose proof (Z.div_mod n 10 ltac:(lia)). lia.
+Qed.
+
+Lemma fmt_nat_spec n : 0 <= n -> exists ds, fmt_nat n = ds /\ Forall isdigit ds /\ ds <> [] /\ dval 0 ds = n.
+Proof.
+  intros Hn. unfold fmt_nat.
+  destruct (digits_aux_spec (Z.to_nat (Z.log2 n)) n []) as [ds [E [F [N V]]]].
+  - split; [assumption|]. rewrite Nat2Z.inj_succ, Z2Nat.id by apply Z.log2_nonneg.
+    destruct (Z.eq_dec n 0) as [->|Nz]; [cbn; lia|]. apply Z.log2_spec. lia.
+  - exists ds. rewrite E, app_nil_r. auto.
+Qed.
+
+(* C17: int('%d' % v) = v *)
+Lemma parse_fmt_int v : parse_int (fmt_int v) = Some v.
+Proof.
+  unfold fmt_int. destruct (Z.ltb_spec v 0) as [Hneg|Hpos].
+  - destruct (fmt_nat_spec (- v) ltac:(lia)) as [ds [E [F [N V]]]]. rewrite E. cbn [parse_int].
+    rewrite Z.eqb_refl. destruct ds as [|d ds]; [contradiction|].
+    rewrite (parse_nat_digits _ 0 F), V. cbn. f_equal. lia.
+  - destruct (fmt_nat_spec v Hpos) as [ds [E [F [N V]]]]. rewrite E.
+    destruct ds as [|d ds]; [contradiction|]. cbn [parse_int].
+    pose proof (Forall_inv F) as Hd. unfold isdigit in Hd.
+    destruct (Z.eqb_spec d 45); [lia|]. rewrite (parse_nat_digits _ 0 F). now rewrite V.
+Qed.
+
+Definition wordchar (c : Z) : Prop := c = 45 \/ isdigit c.
+Lemma fmt_int_chars v : Forall wordchar (fmt_int v) /\ fmt_int v <> [].
+Proof.
+  unfold fmt_int. destruct (Z.ltb_spec v 0) as [Hneg|Hpos].
+  - destruct (fmt_nat_spec (- v) ltac:(lia)) as [ds [E [F [N V]]]]. rewrite E. split; [|discriminate].
+    constructor; [now left|]. eapply Forall_impl; [|exact F]. intros c Hc. now right.
+  - destruct (fmt_nat_spec v Hpos) as [ds [E [F [N V]]]]. rewrite E. split; [|assumption].
+    eapply Forall_impl; [|exact F]. intros c Hc. now right.
+Qed.
+
+(* ---- split / join *)
+Definition issep (seps : list Z) (c : Z) : bool := existsb (Z.eqb c) seps.
+Definition goodword (seps : list Z) (w : str) : Prop := w <> [] /\ Forall (fun c => issep seps c = false) w.
+
+Lemma split_aux_word seps w : forall rest cur, Forall (fun c => issep seps c = false) w ->
+  split_aux seps (w ++ rest) cur = split_aux seps rest (rev w ++ cur).
+Proof.
+  induction w as [|c w IH]; intros rest cur F; [reflexivity|]. inversion F as [|? ? Hc Fw]; subst.
+  cbn [app split_aux]. unfold issep in Hc. rewrite Hc. rewrite IH by assumption. cbn [rev]. now rewrite <- app_assoc.
+Qed.
+
+Lemma split_join seps sep ws : issep seps sep = true -> Forall (goodword seps) ws ->
+  split seps (join sep ws) = ws.
+Proof.
+  intros Hs. unfold split. induction ws as [|x r IH]; intros F; [reflexivity|].
+  inversion F as [|? ? [Nx Fx] Fr]; subst.
+  assert (Rx : rev x <> []) by (intros E; apply Nx; rewrite <- (rev_involutive x), E; reflexivity).
+  destruct r as [|y r].
+  - cbn [join]. rewrite <- (app_nil_r x) at 1. rewrite split_aux_word by assumption. cbn [split_aux]. rewrite app_nil_r.
+    destruct (rev x) eqn:E; [contradiction|]. rewrite <- E, rev_involutive. reflexivity.
+  - change (join sep (x :: y :: r)) with (x ++ sep :: join sep (y :: r)).
+    rewrite split_aux_word by assumption. cbn [split_aux]. unfold issep in Hs. rewrite Hs. rewrite app_nil_r.
+    destruct (rev x) eqn:E; [contradiction|]. rewrite <- E, rev_involutive. f_equal. now apply IH.
+Qed.
+
+(* ---- rows *)
+Lemma rows_of_spec {A} (c : nat) : forall r fuel (l : list A), (0 < c)%nat -> length l = (r * c)%nat -> (r <= fuel)%nat ->
+  concat (rows_of c fuel l) = l /\ length (rows_of c fuel l) = r /\ Forall (fun row => length row = c) (rows_of c fuel l).
+Proof.
+  induction r as [|r IH]; intros fuel l Hc L Hf.
+  - destruct l; [|discriminate]. destruct fuel; cbn; auto.
+  - destruct fuel as [|fuel]; [lia|]. destruct l as [|x l]; [cbn in L; lia|].
+    cbn [rows_of]. set (l0 := x :: l) in *.
+    assert (L1 : length (firstn c l0) = c) by (rewrite firstn_length; lia).
+    assert (L2 : length (skipn c l0) = (r * c)%nat) by (rewrite skipn_length; lia).
+    destruct (IH fuel (skipn c l0) Hc L2 ltac:(lia)) as [C1 [C2 C3]].
+    cbn [concat length]. rewrite C1, C2, firstn_skipn. repeat split; try reflexivity. now constructor.
+Qed.
+
+(* ---- elements *)
+Lemma of_to_signed w u : (0 < w)%nat -> 0 <= u < pow256 w -> of_signed w (to_signed w u) = u.
+Proof.
+  intros Hw Hu. unfold of_signed, to_signed. pose proof (pow256_pos w).
+  destruct (Z.ltb_spec u (pow256 w / 2)).
+  - now apply Z.mod_small.
+  - rewrite <- (Z.mod_add _ 1) by lia. replace (u - pow256 w + 1 * pow256 w) with u by lia. now apply Z.mod_small.
+Qed.
+
+Lemma elem_value_roundtrip signed w u : (0 < w)%nat -> 0 <= u < pow256 w ->
+  elem_of_value signed w (elem_value signed w u) = Some u.
+Proof.
+  intros Hw Hu. unfold elem_of_value, elem_value. destruct signed.
+  - assert (R : - (pow256 w / 2) <= to_signed w u < pow256 w / 2).
+    { unfold to_signed. destruct w as [|w]; [lia|]. rewrite pow256_S in *. pose proof (pow256_pos w).
+      replace (256 * pow256 w / 2) with (128 * pow256 w) in * by
+        (replace (256 * pow256 w) with (128 * pow256 w * 2) by lia; now rewrite Z.div_mul).
+      destruct (Z.ltb_spec u (128 * pow256 w)); lia. }
+    destruct (Z.leb_spec (- (pow256 w / 2)) (to_signed w u)), (Z.ltb_spec (to_signed w u) (pow256 w / 2)); try lia.
+    cbn. f_equal. now apply of_to_signed.
+  - destruct (Z.leb_spec 0 u), (Z.ltb_spec u (pow256 w)); try lia. reflexivity.
+Qed.
+
+Lemma all_some_map_id {A B} (f : A -> B) (g : B -> option A) l :
+  (forall x, In x l -> g (f x) = Some x) -> all_some (map g (map f l)) = Some l.
+Proof.
+  induction l as [|x l IH]; intros H; [reflexivity|]. cbn. rewrite (H x) by now left.
+  rewrite IH; [reflexivity|]. intros y Hy. apply H. now right.
+Qed.
+
+(* ---- np.loadtxt reads back what _arr2txt('%d') wrote *)
+Lemma wordchar_nosep c : wordchar c -> issep [32; 9] c = false /\ issep [10] c = false.
+Proof.
+  unfold wordchar, isdigit, issep. intros H. cbn [existsb].
+  destruct (Z.eqb_spec c 32), (Z.eqb_spec c 9), (Z.eqb_spec c 10); try lia; auto.
+Qed.
+
+Lemma fmt_goodword v : goodword [32; 9] (fmt_int v) /\ goodword [10] (fmt_int v).
+Proof.
+  destruct (fmt_int_chars v) as [F N]. split; (split; [assumption|]);
+    (eapply Forall_impl; [|exact F]); intros c Hc; now apply wordchar_nosep.
+Qed.
+
+Lemma join_forall (P : Z -> Prop) sep ws : P sep -> Forall (Forall P) ws -> Forall P (join sep ws).
+Proof.
+  intros Hs. induction ws as [|x r IH]; intros F; [constructor|]. inversion F as [|? ? Fx Fr]; subst.
+  destruct r as [|y r]; [exact Fx|]. change (join sep (x :: y :: r)) with (x ++ sep :: join sep (y :: r)).
+  apply Forall_app. split; [assumption|]. constructor; [assumption|now apply IH].
+Qed.
+
+Lemma join_nonempty sep x r : x <> [] -> join sep (x :: r) <> [].
+Proof. intros N. destruct r; cbn; [assumption|]. destruct x; [contradiction|discriminate]. Qed.
+
+Lemma concat_singletons {A B} (f : A -> B) l : concat (map (fun u => [f u]) l) = map f l.
+Proof. induction l as [|x l IH]; [reflexivity|]. cbn. now rewrite IH. Qed.
+
+Section AsciiInt.
+  Variable signed : bool.
+  Variable w : nat.
+  Hypothesis Hw : (0 < w)%nat.
+  Let f := fun u => fmt_int (elem_value signed w u).
+  Let g := fun wd => match parse_int wd with Some v => elem_of_value signed w v | None => None end.
+
+  Lemma g_f u : 0 <= u < pow256 w -> g (f u) = Some u.
+  Proof. intros H. unfold g, f. rewrite parse_fmt_int. now apply elem_value_roundtrip. Qed.
+
+  Lemma line_split row : split [32; 9] (join 32 (map f row)) = map f row.
+  Proof.
+    apply split_join; [reflexivity|]. rewrite Forall_forall. intros wd Hwd. apply in_map_iff in Hwd.
+    destruct Hwd as [u [<- _]]. apply fmt_goodword.
+  Qed.
+
+  Lemma line_good row : row <> [] -> goodword [10] (join 32 (map f row)).
+  Proof.
+    intros N. destruct row as [|u row]; [contradiction|]. split.
+    - cbn [map]. apply join_nonempty. apply fmt_int_chars.
+    - apply (join_forall (fun c => issep [10] c = false)); [reflexivity|].
+      rewrite Forall_forall. intros wd Hwd. apply in_map_iff in Hwd. destruct Hwd as [u' [<- _]].
+      destruct (fmt_goodword (elem_value signed w u')) as [_ [_ G]]. exact G.
+  Qed.
+
+  (* rows of words -> elements *)
+  Lemma loadtxt_rows (R : list (list Z)) c data :
+    R <> [] -> Forall (fun row => length row = c) R -> (0 < c)%nat -> concat R = data ->
+    Forall (fun u => 0 <= u < pow256 w) data ->
+    loadtxt_int signed w (join 10 (map (fun row => join 32 (map f row)) R))
+    = Some (if (length R =? 1)%nat || (c =? 1)%nat then [(length R * c)%nat] else [length R; c], data).
+  Proof.
+    intros NE FL Hc CR HR. unfold loadtxt_int.
+    assert (E1 : split [10] (join 10 (map (fun row => join 32 (map f row)) R)) = map (fun row => join 32 (map f row)) R).
+    { apply split_join; [reflexivity|]. rewrite Forall_forall. intros ln Hln. apply in_map_iff in Hln.
+      destruct Hln as [row [<- Hrow]]. apply line_good. rewrite Forall_forall in FL. specialize (FL row Hrow).
+      destruct row; [cbn in FL; lia|discriminate]. }
+    rewrite E1, map_map. rewrite (map_ext _ (map f) line_split).
+    destruct R as [|R0 R']; [contradiction|]. cbn [map].
+    assert (L0 : length (map f R0) = c) by (rewrite map_length; now inversion FL).
+    rewrite L0.
+    assert (FB : forallb (fun r => (length r =? c)%nat) (map f R0 :: map (map f) R') = true).
+    { change (map f R0 :: map (map f) R') with (map (map f) (R0 :: R')). apply forallb_forall. intros r Hr.
+      apply in_map_iff in Hr. destruct Hr as [row [<- Hrow]]. rewrite map_length. rewrite Forall_forall in FL.
+      apply Nat.eqb_eq. now apply FL. }
+    rewrite FB. cbn [negb].
+    change (map f R0 :: map (map f) R') with (map (map f) (R0 :: R')).
+    rewrite <- concat_map, CR.
+    change (fun wd : str => match parse_int wd with Some v => elem_of_value signed w v | None => None end) with g.
+    rewrite (all_some_map_id f g data).
+    - now rewrite map_length.
+    - intros u Hu. apply g_f. rewrite Forall_forall in HR. now apply HR.
+  Qed.
+
+  (* 1-D: one element per line *)
+  Lemma loadtxt_arr2txt_1d data : data <> [] -> Forall (fun u => 0 <= u < pow256 w) data ->
+    loadtxt_int signed w (join 10 (map f data)) = Some ([length data], data).
+  Proof.
+    intros NE HR.
+    pose proof (loadtxt_rows (map (fun u => [u]) data) 1 data) as H.
+    rewrite map_map in H. cbn [map join] in H. rewrite map_length in H.
+    replace (length data * 1)%nat with (length data) in H by lia. rewrite orb_true_r in H.
+    apply H; try assumption; try lia.
+    - destruct data; [contradiction|discriminate].
+    - rewrite Forall_forall. intros row Hrow. apply in_map_iff in Hrow. destruct Hrow as [u [<- _]]. reflexivity.
+    - rewrite (concat_singletons (fun u : Z => u)). apply map_id.
+  Qed.
+End AsciiInt.
+
+Lemma data_arg_text t : match data_arg t with Some x => x | None => [] end = t.
+Proof. destruct t; reflexivity. Qed.
+
+(* C17_ascii_int_roundtrip: what _arr2txt writes for an integer array, read_data_block reads back *)
+Lemma ascii_int_roundtrip b64dec zdecomp loadtxt (signed cm : bool) (a : da_attrs) (w : nat) (dimsn : list nat)
+      (dataC : list Z) (text : str) :
+  a_encoding a = enc_ascii ->
+  (a_endian a = end_big \/ a_endian a = end_little) ->
+  assoc (a_datatype a) dtype_table = Some (Z.of_nat w) -> (0 < w)%nat ->
+  assoc_b (a_datatype a) int_kind_table = Some signed ->
+  a_ind_ord a = (if cm then ord_f else ord_c) ->
+  a_dims a = map Z.of_nat dimsn ->
+  ((exists n, dimsn = [n] /\ (1 <= n)%nat) \/ (exists r c, dimsn = [r; c] /\ (2 <= r)%nat /\ (2 <= c)%nat)) ->
+  length dataC = nprod dimsn ->
+  Forall (fun z => 0 <= z < pow256 w) dataC ->
+  arr2txt_int signed w dimsn dataC = Some text ->
+  read_data_block b64dec zdecomp loadtxt a (data_arg text) = Ok dataC.
+Proof.
+  intros He Hend Hw Hw0 Hk Ho Hd Hshape HL HR Ht.
+  destruct codes_wf as [C1 [C2 [C3 [C4 [C5 [C6 C7]]]]]].
+  unfold read_data_block. rewrite He, Hw, Ho, Hd, Hk, data_arg_text.
+  rewrite no_negative_dims, to_nat_of_nat_map, Nat2Z.id, Z.eqb_refl. cbn [orb negb].
+  assert (E1 : exists be, (if a_endian a =? end_big then Some true else if a_endian a =? end_little then Some false else None) = Some be).
+  { destruct Hend as [-> | ->]; [exists true; now rewrite Z.eqb_refl|exists false; now rewrite C6, Z.eqb_refl]. }
+  destruct E1 as [be ->].
+  assert (E2 : (if (if cm then ord_f else ord_c) =? ord_c then Some false
+                else if (if cm then ord_f else ord_c) =? ord_f then Some true else None) = Some cm).
+  { destruct cm; [now rewrite C7, Z.eqb_refl|now rewrite Z.eqb_refl]. }
+  rewrite E2.
+  destruct Hshape as [[n [-> Hn]]|[r [c [-> [Hr Hc]]]]].
+  - (* 1-D *)
+    cbn [arr2txt_int] in Ht. inversion Ht; subst text. clear Ht.
+    assert (Ln : length dataC = n) by (rewrite HL; unfold nprod; cbn; lia).
+    rewrite (loadtxt_arr2txt_1d signed w Hw0 dataC); [|destruct dataC; [cbn in Ln; lia|discriminate]|assumption].
+    rewrite Ln. replace (nprod [n]) with n by (unfold nprod; cbn; lia). rewrite Nat.eqb_refl. cbn [andb negb].
+    f_equal. apply reorder_roundtrip. unfold nprod. cbn. lia.
+  - (* 2-D, no unit axis *)
+    cbn [arr2txt_int] in Ht. inversion Ht; subst text. clear Ht.
+    assert (Lrc : length dataC = (r * c)%nat) by (rewrite HL; unfold nprod; cbn; lia).
+    destruct (rows_of_spec c r (length dataC) dataC ltac:(lia) Lrc ltac:(nia)) as [R1 [R2 R3]].
+    rewrite (loadtxt_rows signed w Hw0 (rows_of c (length dataC) dataC) c dataC); try assumption; try lia.
+    + rewrite R2.
+      destruct (Nat.eqb_spec r 1); [lia|]. destruct (Nat.eqb_spec c 1); [lia|]. cbn [orb].
+      rewrite Lrc. replace (nprod [r; c]) with (r * c)%nat by (unfold nprod; cbn; lia).
+      rewrite Nat.eqb_refl. cbn [andb negb]. f_equal. apply reorder_roundtrip. unfold nprod. cbn. lia.
+    + intros E. rewrite E in R2. cbn in R2. lia.
+Qed.
+
+Section WholeWrittenAscii.
+  Variable b64enc : list Z -> str.
+  Variable b64dec : str -> option (list Z).
+  Variable zcomp : list Z -> list Z.
+  Variable zdecomp : list Z -> option (list Z).
+  Variable loadtxt : Z -> str -> option (list nat * list Z).
+  Hypothesis b64_inv : forall x, b64dec (b64enc x) = Some x.
+  Hypothesis zlib_inv : forall x, zdecomp (zcomp x) = Some x.
+
+  (* an integer data array as _to_xml_element writes it with the ASCII encoding (1-D, or 2-D without a
+     unit axis); np.loadtxt of the MatrixData text (float64) stays a premise *)
+  Definition written_ascii_int (d : wda) : Prop :=
+    exists (signed cm : bool) (w : nat) (dimsn : list nat),
+      a_encoding (w_attrs d) = enc_ascii /\
+      (a_endian (w_attrs d) = end_big \/ a_endian (w_attrs d) = end_little) /\
+      assoc (a_datatype (w_attrs d)) dtype_table = Some (Z.of_nat w) /\ (0 < w)%nat /\
+      assoc_b (a_datatype (w_attrs d)) int_kind_table = Some signed /\
+      a_ind_ord (w_attrs d) = (if cm then ord_f else ord_c) /\
+      a_dims (w_attrs d) = map Z.of_nat dimsn /\
+      ((exists n, dimsn = [n] /\ (1 <= n)%nat) \/ (exists r c, dimsn = [r; c] /\ (2 <= r)%nat /\ (2 <= c)%nat)) /\
+      length (w_data d) = nprod dimsn /\
+      Forall (fun z => 0 <= z < pow256 w) (w_data d) /\
+      arr2txt_int signed w dimsn (w_data d) = Some (w_text d) /\
+      exists shp, loadtxt 64 (w_mtext d) = Some (shp, w_xform d).
+
+  Lemma written_ascii_int_ok d : written_ascii_int d -> da_ok b64dec zdecomp loadtxt d.
+  Proof.
+    intros [signed [cm [w [dimsn [H1 [H2 [H3 [H4 [H5 [H6 [H7 [H8 [H9 [H10 [H11 H12]]]]]]]]]]]]]]].
+    split; [exact H12|]. now apply (ascii_int_roundtrip b64dec zdecomp loadtxt signed cm (w_attrs d) w dimsn).
+  Qed.
+
+  (* C17_whole_image_roundtrip_all: Base64 arrays of any type and ASCII integer arrays, no decoding premise *)
+  Lemma whole_image_roundtrip_all (i : wimage) evs :
+    Forall (fun d => written_da b64enc zcomp loadtxt d \/ written_ascii_int d) (wi_das i) ->
+    merge evs = merge (image_events i) ->
+    parse b64dec zdecomp loadtxt evs = Ok (norm_image i).
+  Proof.
+    intros F M. apply whole_image_any_chunking; [|assumption].
+    rewrite Forall_forall in *. intros d Hd. destruct (F d Hd) as [W|W].
+    - now apply (written_da_ok b64enc b64dec zcomp zdecomp loadtxt b64_inv zlib_inv).
+    - now apply written_ascii_int_ok.
+  Qed.
+End WholeWrittenAscii.
